@@ -97,6 +97,14 @@ def systematic(gen):
     ]
     for i, j in itertools.product(range(len(alts)), repeat=2):
         hs.append([base(), alts[i](), alts[j]()])
+    # the SAME text submitted again (byte-identical) after the set has been changed by another operation: it must be
+    # applied again, not recognised as "already installed"
+    for i in range(len(alts)):
+        b = base()
+        hs.append([b, alts[i](), dict(b)])
+        hs.append([b, alts[i](), dict(b), alts[(i + 3) % len(alts)]()])
+        inc = alts[i]()
+        hs.append([base(), inc, alts[(i + 1) % len(alts)](), dict(inc)])
     return hs
 
 
